@@ -25,11 +25,26 @@ def install(m):
 
 
 # -------------------------------------------------------------- windows / views
+def concretize_slice(m, s):
+    """make offset/len/cap of a slice concrete (forks over feasible values)"""
+    if s is None or s.obj is None:
+        return s
+    off, ln, cp = s.off, s.len, s.cap
+    if isinstance(ln, T):
+        ln = m.ctx.concretize(ln, 64, 'slice len')
+    if isinstance(off, T):
+        off = m.ctx.concretize(off, 64, 'slice off')
+    if isinstance(cp, T):
+        cp = m.ctx.concretize(cp, 64, 'slice cap')
+    if off is s.off and ln is s.len and cp is s.cap:
+        return s
+    return X.Slice(s.obj, s.path, off, ln, cp)
+
+
 def _array_view(m, s, n):
     """*[n]T view of slice s (len already checked)"""
+    s = concretize_slice(m, s)
     off = s.off
-    if isinstance(off, T):
-        raise X.Unsupported("array view of slice with symbolic offset")
     # whole underlying array?
     node = m._load(s.obj.tree, s.path, 0)
     if off == 0 and len(node) == n:
@@ -49,7 +64,7 @@ def _slice_elems(m, s):
     if s.obj is None:
         return []
     if isinstance(s.len, T) or isinstance(s.off, T):
-        raise X.Unsupported("symbolic slice length/offset")
+        s = concretize_slice(m, s)
     node = m._load(s.obj.tree, s.path, 0)
     if isinstance(node, list) and not (s.path and isinstance(s.path[-1], tuple)):
         return [m._copy_out(v) for v in node[s.off:s.off + s.len]]
@@ -95,6 +110,9 @@ def _builtin(m, name, args, c, I):
         return args[0].cap
     if name == 'copy':
         dst, src = args
+        dst = concretize_slice(m, dst)
+        if isinstance(src, X.Slice):
+            src = concretize_slice(m, src)
         sl = len(src) if isinstance(src, (str, SymString)) else src.len
         n = min(dst.len, sl)
         if n == 0:
@@ -110,6 +128,10 @@ def _builtin(m, name, args, c, I):
         return n
     if name == 'append':
         s, t = args
+        if isinstance(s, X.Slice):
+            s = concretize_slice(m, s)
+        if isinstance(t, X.Slice):
+            t = concretize_slice(m, t)
         if isinstance(t, str):
             tv = [ord(ch) for ch in t]
         elif isinstance(t, SymString):
@@ -191,6 +213,8 @@ def _fmt_errorf(m, a):
 
 def _bytes_equal(m, a):
     x, y = a
+    if isinstance(x.len, T) or isinstance(y.len, T):
+        x, y = concretize_slice(m, x), concretize_slice(m, y)
     xe, ye = _slice_elems(m, x), _slice_elems(m, y)
     if len(xe) != len(ye):
         return False
@@ -201,7 +225,7 @@ def _bytes_equal(m, a):
 
 
 def _xorbytes(m, a):
-    dst, x, y = a
+    dst, x, y = [concretize_slice(m, v) for v in a]
     n = min(x.len, y.len)
     if n == 0:
         return 0
